@@ -268,11 +268,14 @@ fn from_payload(name: &str, channel: u16) -> Entry {
 pub fn catalogue() -> Vec<Entry> {
     let mut v: Vec<Entry> = vec![];
     // ---- ledger
-    v.push(Entry { name: "MultiEraBlock::decode".into(), call: Box::new(|i, _| run2(i, MultiEraBlock::decode, block_digest)) });
+    v.push(Entry { name: "MultiEraBlock::decode".into(), call: Box::new(|i, cheap| run2(i, MultiEraBlock::decode, |b| if cheap { 1 } else { block_digest(b) })) });
     v.push(Entry {
         name: "MultiEraTx::decode".into(),
-        call: Box::new(|i, _| {
+        call: Box::new(|i, cheap| {
             run2(i, MultiEraTx::decode, |t| {
+                if cheap {
+                    return 1;
+                }
                 let mut h = Fnv::new();
                 h.u64(t.era() as u64);
                 tx_digest(t, &mut h);
@@ -283,8 +286,11 @@ pub fn catalogue() -> Vec<Entry> {
     for (era, n) in ERAS {
         v.push(Entry {
             name: format!("MultiEraTx::decode_for_era({n})"),
-            call: Box::new(move |i, _| {
+            call: Box::new(move |i, cheap| {
                 run2(i, |i| MultiEraTx::decode_for_era(era, i), |t| {
+                    if cheap {
+                        return 1;
+                    }
                     let mut h = Fnv::new();
                     tx_digest(t, &mut h);
                     h.0
